@@ -11,6 +11,7 @@ harness (ron round trips of strings and contexts against the real crate), not mo
 -/
 import EvalexprVerif.Proofs.SerdeRoundtrip
 import EvalexprVerif.Proofs.AgreeSerde
+import EvalexprVerif.Proofs.AgreeFnSweep
 
 namespace Evalexpr.Spec.C16
 open Evalexpr Evalexpr.Spec
@@ -31,5 +32,12 @@ example : HashMapCtx.ofData
     = some { vars := [(['a'], .float (Float.ofBits 0x8000000000000000)), (['b'], .tuple [.int 1, .tuple [.empty]])],
              funs := [], noBuiltins := true } :=
   C16_context _ ⟨⟨by simp, ⟨by simp, trivial⟩⟩, ⟨by simp, trivial⟩⟩
+
+/-- **C16 about the code as translated on this run**: the rendered `NodeVisitor::visit_str` (src/feature_serde/mod.rs)
+returns, for every string, exactly what the rendered `build_operator_tree` returns — the same tree, or the same error
+(whose Display text is the message; boundary: `de::Error::custom(e)` is determined by `e`) -/
+theorem C16_node_generated (s : List Char) :
+    Gen.NodeVisitor.visit_str () s = Gen.build_operator_tree s := by
+  rw [AgreeFn.fn_NodeVisitor_visit_str_agree, AgreeFn.fn_build_operator_tree_agree]; exact C16_node s
 
 end Evalexpr.Spec.C16
